@@ -107,6 +107,9 @@ DevEnabled(d, feat) ==
     \* a backslash continuation followed only by blank lines: the output ends in a dangling
     \* continuation the formatter itself no longer accepts
     [] d = "Dev_DanglingContinuation"     -> feat.dangling_continuation
+    \* after a statement with a xonsh bracket form the tokenizer stops reporting a `#` glued to the
+    \* previous token as a comment: the first pass separates it by one blank, the next pass by two
+    [] d = "Dev_GluedHashAfterBracket"    -> feat.glued_hash_after_bracket
     [] OTHER -> FALSE
 
 Format(feat, accepted) ==
@@ -126,7 +129,7 @@ Init == /\ input \in Streams /\ level \in {0, 1}
         /\ lineStart = TRUE /\ pending = 0 /\ pass = 1 /\ first = <<>>
         /\ res = [accepted |-> TRUE, same |-> TRUE, idem |-> TRUE, dev |-> ""] /\ phase = "run"
 
-MCFormat == \E tt \in BOOLEAN, al \in BOOLEAN, dc \in BOOLEAN : Format([triple_trailing |-> tt, assign_like_command |-> al, dangling_continuation |-> dc], TRUE)
+MCFormat == \E tt \in BOOLEAN, al \in BOOLEAN, dc \in BOOLEAN, gh \in BOOLEAN : Format([triple_trailing |-> tt, assign_like_command |-> al, dangling_continuation |-> dc, glued_hash_after_bracket |-> gh], TRUE)
 Next == Step \/ EndPass \/ (phase = "done" /\ phase' = "idle" /\ UNCHANGED <<input, pos, out, depth, macroFn, macroLine, subproc, lineStart, pending, level, pass, first, res>>) \/ MCFormat
 Spec == Init /\ [][Next]_vars
 
